@@ -527,18 +527,18 @@ func genSeq(tier string, seed int64, prop string, nQuick, nThorough int) []core.
 func init() {
 	core.Register(&core.Check{
 		Prop: "C01", Level: "exploration",
-		Rule: "case = one single-client program of 60-400 transactions (1-4 Set/Delete each; hostile, windowed, long, binary keys; unique values of 0..5000 bytes, 64KiB..1MiB in every twelfth case) against a database with tiny random thresholds (memtable 1..4096 B, block 1..4096 B, L0 target and ratio 1..3, flush queue 0..4), drain policy always/never/random, delay profile none/jitter/slow-flusher/slow-commit/slow-rotate at the schedule points; after every commit the written keys and 3 others are read, every 20 commits and at the end (before and after a drain) all keys; oracle = map updated at each acknowledged commit, mismatches classified lost/stale/resurrected/alien/corrupt; every real compaction is also judged in situ by the C09 oracle; non-trivial = >=1 flush, >=1 compaction and >=1 read answered by a table; distinct by case parameters",
-		Gen:  func(tier string, seed int64) []core.Case { return genSeq(tier, seed, "C01", 96, 800) },
-		Run:  func(c core.Case) core.Result { return runSeq(c, "C01", false) },
+		Rule:      "case = one single-client program of 60-400 transactions (1-4 Set/Delete each; hostile, windowed, long, binary keys; unique values of 0..5000 bytes, 64KiB..1MiB in every twelfth case) against a database with tiny random thresholds (memtable 1..4096 B, block 1..4096 B, L0 target and ratio 1..3, flush queue 0..4), drain policy always/never/random, delay profile none/jitter/slow-flusher/slow-commit/slow-rotate at the schedule points; after every commit the written keys and 3 others are read, every 20 commits and at the end (before and after a drain) all keys; oracle = map updated at each acknowledged commit, mismatches classified lost/stale/resurrected/alien/corrupt; every real compaction is also judged in situ by the C09 oracle; non-trivial = >=1 flush, >=1 compaction and >=1 read answered by a table; distinct by case parameters",
+		Gen:       func(tier string, seed int64) []core.Case { return genSeq(tier, seed, "C01", 96, 800) },
+		Run:       func(c core.Case) core.Result { return runSeq(c, "C01", false) },
 		BatchSize: 4, GoMaxProcs: 2, Parallel: 8,
 		MinNonTrivial: map[string]int{"quick": 40, "thorough": 400},
 		Assumptions:   []string{"single client: the commit order is the program order", "background flush/compaction timing is steered (drain policy, injected delays), not enumerated", "nil and empty values are the same value"},
 	})
 	core.Register(&core.Check{
 		Prop: "C02", Level: "exploration",
-		Rule: "case = a C01 program with Close/Open cycles: periodically, right after a commit that rotated the memtable (then possibly once more with an empty memtable), with a non-empty flush queue, directly after Open, and at the end; every parameter except L0TargetNum/LevelRatio is re-drawn per incarnation; after each reopen all keys are read against the model, then (half of the time) every key is overwritten and read again; non-trivial = >=2 reopens of which >=1 over a directory with tables on >=2 levels; distinct by case parameters",
-		Gen:  func(tier string, seed int64) []core.Case { return genSeq(tier, seed, "C02", 64, 500) },
-		Run:  func(c core.Case) core.Result { return runSeq(c, "C02", true) },
+		Rule:      "case = a C01 program with Close/Open cycles: periodically, right after a commit that rotated the memtable (then possibly once more with an empty memtable), with a non-empty flush queue, directly after Open, and at the end; every parameter except L0TargetNum/LevelRatio is re-drawn per incarnation; after each reopen all keys are read against the model, then (half of the time) every key is overwritten and read again; non-trivial = >=2 reopens of which >=1 over a directory with tables on >=2 levels; distinct by case parameters",
+		Gen:       func(tier string, seed int64) []core.Case { return genSeq(tier, seed, "C02", 64, 500) },
+		Run:       func(c core.Case) core.Result { return runSeq(c, "C02", true) },
 		BatchSize: 4, GoMaxProcs: 2, Parallel: 8,
 		MinNonTrivial: map[string]int{"quick": 15, "thorough": 150},
 		Assumptions:   []string{"single client", "reopen in the same process (cross-process recovery is covered by the C03 runs)", "L0TargetNum and LevelRatio stay fixed for a directory"},
